@@ -151,8 +151,9 @@ def tlc(ctx, module, cfg=None, workers=None, timeout=600, extra=(), files=(), si
     info["postcondition_failed"] = "Error: Postcondition" in txt
     info["violated"] = viol
     if viol and not allow_violation:
-        raise NoVerdict("specification %s/%s violates its own property (spec broken):\n%s"
-                        % (module, cfg, tail(txt, 60)))
+        errs = [l for l in txt.splitlines() if l.startswith("Error:")]
+        raise NoVerdict("specification %s/%s violates its own property (spec broken):\n%s\n...\n%s"
+                        % (module, cfg, "\n".join(errs[:6]), tail(txt, 25)))
     if p.returncode not in (0, 12, 13) and not viol and not simulate:
         # 12/13 = violation codes; anything else unexpected
         if "Model checking completed" not in txt and "Finished in" not in txt:
